@@ -6,7 +6,7 @@ ALL = ["C%02d" % i for i in range(1, 21)]
 CHECKS = {
  "C19": dict(cat="exploration", engine="e2e",
    technique="exhaustive decision table and command histories on the real binary built from the tree, judged by in-process verification of independently decoded proofs",
-   text="setup / gen-test-params / prove / verify / convert-to-raw / export-solidity of the built binary composed through files and pipes at (2,2) (thorough +(1,3)): prove over (--mode flag x keys x params) incl. bogus/absent mode, other mode's, missing and truncated keys, garbage/empty/perturbed parameters; verify over the same (mode x keys) product and (hash x proof) incl. +1, +r, decimal, non-number, absent hash and 8 single-digit tamperings, {}, empty, garbage proofs; histories through converted keys, repeated proofs, verify without proof, other system's proof. Oracle: exit 0 <=> the independently decoded proof verifies in-process for hash mod r under the given keys; prove's stdout is exactly one JSON value + newline.",
+   text="setup / gen-test-params / prove / verify / convert-to-raw / export-solidity of the built binary composed through files and pipes at (2,2) (thorough +(3,1)): prove over (--mode flag x keys x params) incl. bogus/absent mode, other mode's, missing and truncated keys, garbage/empty/perturbed parameters; verify over the same (mode x keys) product and (hash x proof) incl. +1, +r, decimal, non-number, absent hash and 8 single-digit tamperings, {}, empty, garbage proofs; histories through converted keys, repeated proofs, verify without proof, other system's proof. Oracle: exit 0 <=> the independently decoded proof verifies in-process for hash mod r under the given keys; prove's stdout is exactly one JSON value + newline.",
    note="stderr content is free; gen-test-params is deterministic, so 'many independent proofs' are repeated prove runs (proof randomness), short roots are covered by C08's generator sweep.", ref="DESIGN.md C19"),
 
  "C09": dict(cat="model_checking", engine="schedmc+seqmc",
